@@ -9,6 +9,7 @@ using namespace vf;
 struct Shape { uint64_t N, nr, nc, as, rs, asl; };
 
 // runs prepare + apply (+ idft) on given integer data; returns res_size*N integers
+static bool g_zero_gaps = false;  // stride padding of the input vector filled with zeros instead of the 0xFF pattern
 static void run_vmp(MODULE* mod, const Shape& s, const std::vector<int64_t>& mat, const std::vector<int64_t>& a, int entry,
                     std::vector<int64_t>& out, std::string& err) {
   const uint64_t N = s.N;
@@ -19,7 +20,7 @@ static void run_vmp(MODULE* mod, const Shape& s, const std::vector<int64_t>& mat
   vmp_prepare_contiguous(mod, (VMP_PMAT*)pm.p, gm.as<int64_t>(), s.nr, s.nc, ptmp.p);
   if (memcmp(gm.p, mat.data(), mat.size() * 8)) err = "vmp_prepare_contiguous modified the integer matrix";
   GBuf ga(limbvec_elems(N, s.as, s.asl) * 8, 24);
-  prefill(ga.p, ga.bytes, 1);
+  prefill(ga.p, ga.bytes, g_zero_gaps ? 0 : 1);
   for (uint64_t i = 0; i < s.as; ++i) memcpy(ga.as<int64_t>() + i * s.asl, &a[i * N], N * 8);
   std::vector<uint8_t> a_snap(ga.p, ga.p + ga.bytes), pm_snap(pm.p, pm.p + pm.bytes);
   GBuf res(bytes_of_vec_znx_dft(mod, s.rs), 8);
@@ -105,6 +106,19 @@ static void scaled_data(const Shape& s, std::vector<int64_t>& mat, std::vector<i
   for (size_t e = 0; e < a.size(); ++e) { int64_t v = (int64_t)((e * 3) % 7 + 1) << (32 + (e / s.N) % 2 * 3); a[e] = (e % 3 == 0) ? -v : v; }
 }
 
+// sparse rows: some rows of the input vector are the zero polynomial, others a single high-degree monomial, and the stride
+// padding is zero as well (e.g. one column of a row-major matrix of polynomials): a shortcut for "empty" rows must look at
+// the right coefficients
+static void sparse_row_data(const Shape& s, std::vector<int64_t>& mat, std::vector<int64_t>& a) {
+  mat.resize(s.nr * s.nc * s.N); a.assign(std::max<uint64_t>(s.as, 1) * s.N, 0);
+  for (size_t e = 0; e < mat.size(); ++e) { int64_t v = (int64_t)(e % 97) + 1; mat[e] = (e & 1) ? -v : v; }
+  for (uint64_t i = 0; i < s.as; ++i) {
+    if (i % 3 == 1) continue;                                   // zero row
+    if (i % 3 == 2) { a[i * s.N + s.N - 1] = 1000 + (int64_t)i; continue; }   // c * X^(N-1)
+    for (uint64_t j = 0; j < s.N; ++j) a[i * s.N + j] = (int64_t)((i * 31 + j * 7) % 201) - 100;
+  }
+}
+
 static void run_box(Ctx& ctx, uint64_t N, const CpuCfg& cfg, uint64_t maxdim, uint64_t maxsize) {
   MODULE* mod = get_module(N, FFT64, cfg);
   std::vector<int64_t> mat, a;
@@ -115,6 +129,15 @@ static void run_box(Ctx& ctx, uint64_t N, const CpuCfg& cfg, uint64_t maxdim, ui
       check_case(ctx, mod, s, mat, a, shape_id(s, cfg.name, "dense"), false);
       if (nr <= 3 && nc <= 3 && as <= 3 && rs <= 3 && N <= 16) { scaled_data(s, mat, a); check_case(ctx, mod, s, mat, a, shape_id(s, cfg.name, "scaled-2^32"), false); }
     }
+  // sparse rows with zero stride padding, strides N+3 and 2N (every a_size up to 5 ends on a zero row, a monomial row and a dense row)
+  g_zero_gaps = true;
+  for (uint64_t nr = 1; nr <= std::min<uint64_t>(maxdim, 5); ++nr) for (uint64_t nc = 1; nc <= 2; ++nc)
+    for (uint64_t as = 1; as <= 5; ++as) for (uint64_t rs = 1; rs <= 2; ++rs) for (uint64_t asl : {N + 3, 2 * N, 3 * N + 1}) {
+      Shape s{N, nr, nc, as, rs, asl};
+      sparse_row_data(s, mat, a);
+      check_case(ctx, mod, s, mat, a, shape_id(s, cfg.name, "sparse-rows-zero-padding"), false);
+    }
+  g_zero_gaps = false;
   // larger shapes (odd / even columns, res_size <,=,> ncols, a_size <,=,> nrows)
   for (auto& q : std::vector<std::vector<uint64_t>>{{7, 9, 8, 9}, {9, 7, 10, 5}, {1, 12, 1, 11}, {12, 1, 13, 1}, {8, 8, 8, 7}, {5, 11, 5, 9}, {11, 6, 3, 6}, {6, 7, 9, 8}})
     for (uint64_t asl : {N, N + 3}) { Shape s{N, q[0], q[1], q[2], q[3], asl}; dense_data(s, mat, a); check_case(ctx, mod, s, mat, a, shape_id(s, cfg.name, "dense"), false); }
